@@ -200,9 +200,43 @@ def exclusive(a, b, pm, stop=None):
     return False
 
 
+def _blocks(node):
+    for f in ('body', 'orelse', 'finalbody'):
+        b = getattr(node, f, None)
+        if isinstance(b, list):
+            yield b
+    for h in getattr(node, 'handlers', []) or []:
+        yield h.body
+
+
+def dominating_block_index(d, use, pm):
+    """If statement d precedes (an enclosing statement of) use in one block, or d is the loop whose body contains use
+    (for the loop-target binding), return the chain node of use in that block (else None)."""
+    x = use
+    while x is not None:
+        p = pm.get(id(x))
+        if p is None:
+            return None
+        if p is d and isinstance(d, (ast.For, ast.AsyncFor)) and any(x is s for s in d.body):
+            return x
+        if isinstance(x, ast.stmt):
+            for b in _blocks(p):
+                if any(x is s for s in b):
+                    for s in b:
+                        if s is x:
+                            break
+                        if s is d:
+                            return x
+        x = p
+    return None
+
+
 def reaching_definitions(fn_node, name, use, pm):
     """Definitions of name that can reach the use: not in an exclusive if-arm, and either textually
-    before the use or inside a loop that also contains the use."""
+    before the use or inside a loop that also contains the use.  A definition that dominates the use (an earlier
+    statement of a block enclosing the use, or the target of the loop whose body contains it) kills every
+    definition that precedes it, and -- when it lies in the innermost loop shared with a later definition -- the
+    loop-carried ones as well."""
     out = []
     for st, val, how in definitions(fn_node, name):
         if exclusive(st, use, pm, stop=fn_node):
@@ -214,4 +248,30 @@ def reaching_definitions(fn_node, name, use, pm):
         ld = {id(x) for x in enclosing_loops(st, pm, stop=fn_node)}
         if lu & ld:
             out.append((st, val, how))
+    if len(out) > 1:
+        before = [d for d in out if position(d[0]) < position(use) and d[2] in ('assign', 'for', 'unpack')
+                  and isinstance(d[0], ast.stmt)]
+        if before:
+            dstar = max(before, key=lambda d: position(d[0]))
+            if dominating_block_index(dstar[0], use, pm) is not None and not (
+                    isinstance(dstar[0], ast.stmt) and any(n is use for n in ast.walk(dstar[0])) and not isinstance(dstar[0], (ast.For, ast.AsyncFor))):
+                loops_d = [id(x) for x in enclosing_loops(dstar[0], pm, stop=fn_node) if isinstance(x, (ast.For, ast.AsyncFor, ast.While))]
+                if isinstance(dstar[0], (ast.For, ast.AsyncFor)):
+                    loops_d = [id(dstar[0])] + loops_d
+                kept = []
+                for d in out:
+                    if d is dstar:
+                        kept.append(d)
+                    elif position(d[0]) < position(dstar[0]):
+                        continue                                  # killed
+                    elif position(d[0]) > position(use):
+                        # loop-carried: killed if every loop shared by d and use also contains dstar
+                        shared = [id(x) for x in enclosing_loops(d[0], pm, stop=fn_node)
+                                  if id(x) in {id(y) for y in enclosing_loops(use, pm, stop=fn_node)}]
+                        if shared and all(l in loops_d for l in shared):
+                            continue
+                        kept.append(d)
+                    else:
+                        kept.append(d)                            # between dstar and use but not dominating (conditional)
+                out = kept
     return out
